@@ -472,3 +472,39 @@ func init() {
 		},
 	})
 }
+
+func raceCfg() eng.Config {
+	return eng.Config{DefaultUnwind: 2, Rounds: 2, Race: true, NoResize: map[int]bool{0: true, 1: true}}
+}
+
+func init() {
+	register(&PropSpec{
+		ID:        "C14",
+		Race:      true,
+		Technique: "symbolic data-race query: every heap access of both goroutines' go/ssa code is recorded with its scheduling group; the solver is asked for a schedule (free round boundaries) and inputs under which two conflicting accesses, at least one of them plain, are adjacent; counterexamples are confirmed by the Go race detector on a natively parallel run",
+		Bounds:    map[string]interface{}{"threads": 2, "ops_per_thread": 1, "rounds": 2, "table": "1 root bucket (map level)", "adjacency": "at the three round boundaries of the A1 B1 A2 B2 schedule"},
+		Stubs:     commonStubs,
+		Outside:   []string{"more than 2 goroutines", "races that need more than 3 context switches to reach", "resizes concurrent with the calls", "the janitor goroutine (its body is DeleteExpired, covered as a caller)"},
+		Quick: func() []eng.Instance {
+			var is []eng.Instance
+			for _, p := range [][2]int{{0, 1}, {0, 7}, {0, 5}, {1, 7}, {10, 1}} {
+				is = append(is, eng.Instance{Name: fmt.Sprintf("C14/Map/race/%s||%s", mapOps[p[0]], mapOps[p[1]]), Pkg: "xsync", Func: "VxH_Map_race",
+					Args: []int64{int64(p[0]), int64(p[1]), 1, 1, 1, 1}, Cfg: raceCfg()})
+				is = append(is, eng.Instance{Name: fmt.Sprintf("C14/MapOf/race/%s||%s", mapOps[p[0]], mapOps[p[1]]), Pkg: "xsync", Func: "VxH_MapOf_race",
+					Args: []int64{int64(p[0]), int64(p[1]), 1, 1, 1, 1, 2, 0}, Cfg: raceCfg()})
+			}
+			is = append(is, eng.Instance{Name: "C14/Map/publish", Pkg: "xsync", Func: "VxH_Map_publish", Args: []int64{1}, Cfg: raceCfg()})
+			// overflow-bucket append racing with the lock-free reader (full root bucket, table below the grow threshold)
+			is = append(is, eng.Instance{Name: "C14/MapOf/race/Load||Store(full bucket)", Pkg: "xsync", Func: "VxH_MapOf_race",
+				Args: []int64{0, 1, 2, 1, 2, -1, -5, 0}, Cfg: eng.Config{DefaultUnwind: 6, Rounds: 2, Race: true, NoResize: map[int]bool{0: true, 1: true}}})
+			var cs []eng.Instance
+			names := []string{"SetDefaultExpiration", "SetEvictedCallback", "Set(default)", "GetAndDelete", "DeleteExpired", "DefaultExpiration()", "EvictedCallback()", "Get"}
+			for _, p := range [][2]int{{0, 2}, {0, 5}, {0, 0}, {1, 3}, {1, 4}, {1, 6}, {1, 1}} {
+				cs = append(cs, eng.Instance{Name: fmt.Sprintf("C14/Cache/settings/%s||%s", names[p[0]], names[p[1]]), Pkg: "cache", Func: "VxH_C14_settings",
+					Args: []int64{int64(p[0]), int64(p[1])}, Cfg: eng.Config{DefaultUnwind: 4, Rounds: 2, Race: true}})
+			}
+			is = append(is, withOf(cs)...)
+			return is
+		},
+	})
+}
